@@ -54,8 +54,21 @@ ClauseCmp(e) ==
      ELSE IF want = 0 /\ ~e.saysidentical THEN [c |-> "Message", alarm |-> FALSE]
      ELSE [c |-> "ok", alarm |-> FALSE]
 
+(* "dir" events: the tool run on two directories of numbered pictures (files listed in       *)
+(* increasing number order); pairs[i] says how the driver made the i-th pair differ.        *)
+ClauseDir(e) ==
+  LET codes == [i \in 1..Len(e.pairs) |-> ExitCode(e.pairs[i].sameparams, e.pairs[i].samemode, e.pairs[i].samenumber, e.pairs[i].counts)]
+  IN IF e.exc # "none"                   THEN [c |-> "DirCompareRaised", alarm |-> TRUE]
+     ELSE IF (e.exit = 0) # DirAllIdentical(codes)
+                                         THEN [c |-> "DirExitZeroIffAllIdentical", alarm |-> TRUE]
+     ELSE IF e.exit # DirExit(codes)     THEN [c |-> "DirExitIsLastDifference", alarm |-> FALSE]
+     ELSE IF e.ndifferent # DirNumDifferent(codes) \/ e.nsame # Len(codes) - DirNumDifferent(codes)
+                                         THEN [c |-> "DirSummary", alarm |-> FALSE]
+     ELSE [c |-> "ok", alarm |-> FALSE]
+
 Clause(e) == CASE e.ev = "rt"  -> ClauseRt(e)
                [] e.ev = "cmp" -> ClauseCmp(e)
+               [] e.ev = "dir" -> ClauseDir(e)
                [] OTHER -> [c |-> "UnknownEvent", alarm |-> TRUE]
 
 TraceInit == l = 1 /\ bad = <<>>
